@@ -102,8 +102,8 @@ func genC34(seed uint64, tier string) any {
 		for m := 0; m < nm; m++ {
 			t := c34Task{Side: side, Kind: "misc"}
 			for k := r.Range(1, 6); k > 0; k-- {
-				op := []string{"state", "state", "handshake", "setdl", "setrdl", "setwdl", "sleep", "closewrite", "close", "hello_request", "key_update_kill", "key_update_raw"}[r.Pick([]int{4, 4, 3, 2, 2, 2, 3, 1, 1, 2, 3, 3})]
-				if op == "hello_request" && (side != 1 || sc.Version == vTLS13) || (op == "key_update_kill" || op == "key_update_raw") && sc.Version != vTLS13 {
+				op := []string{"state", "state", "handshake", "setdl", "setrdl", "setwdl", "sleep", "closewrite", "close", "hello_request", "key_update_kill", "key_update_raw", "ccs_flood"}[r.Pick([]int{4, 4, 3, 2, 2, 2, 3, 1, 1, 2, 3, 3, 2})]
+				if op == "hello_request" && (side != 1 || sc.Version == vTLS13) || (op == "key_update_kill" || op == "key_update_raw" || op == "ccs_flood") && sc.Version != vTLS13 {
 					op = "handshake"
 				}
 				t.Ops = append(t.Ops, c34Op{Op: op, DelayMs: []int{1, 20, 300, 3000}[r.Intn(4)]})
@@ -251,6 +251,10 @@ type c34Side struct {
 	readErrAt int  // scheduler step at which the reader stopped
 	idleEnd   bool // the reader stopped because nothing arrived for the whole patience interval
 	sticky    bool // Read kept returning a timeout although its deadline had been moved into the future
+	rdlDone   time.Time   // read deadline of the last completed SetDeadline/SetReadDeadline call on this side
+	rdlPending []time.Time // read deadlines of such calls that are executing right now
+	spurious  string      // a Read timed out before every read deadline the application had set
+	wdlMin    time.Time   // earliest write deadline the application has ever set on this side (a Read may have to write)
 	hsErr     error
 	nextSeq   map[int]int
 }
@@ -289,6 +293,25 @@ func execC34(t *testing.T, scAny any, keepLog bool) *Outcome {
 				}
 			}
 		}
+		// every read-deadline change goes through setRDL, so that the harness knows which deadlines can be in effect
+		setRDL := func(sd *c34Side, t time.Time, both bool) {
+			sd.rdlPending = append(sd.rdlPending, t)
+			if both && (sd.wdlMin.IsZero() || t.Before(sd.wdlMin)) {
+				sd.wdlMin = t
+			}
+			if both {
+				sd.conn.SetDeadline(t)
+			} else {
+				sd.conn.SetReadDeadline(t)
+			}
+			for i, p := range sd.rdlPending {
+				if p.Equal(t) {
+					sd.rdlPending = append(sd.rdlPending[:i], sd.rdlPending[i+1:]...)
+					break
+				}
+			}
+			sd.rdlDone = t
+		}
 		markAbrupt := func(sd *c34Side) {
 			if !sd.abrupt {
 				sd.abrupt, sd.abruptAt = true, s.Steps+1
@@ -301,7 +324,7 @@ func execC34(t *testing.T, scAny any, keepLog bool) *Outcome {
 			side := side
 			// the reader: sets the deadline, drives the handshake through Read, drains until EOF or error, then closes
 			s.Go(fmt.Sprintf("reader%d", side), func() {
-				sd.conn.SetDeadline(s.Now().Add(base))
+				setRDL(sd, s.Now().Add(base), true)
 				buf := make([]byte, sc.ReadBuf)
 				lastProgress := s.Now()
 				spins := 0
@@ -311,6 +334,21 @@ func execC34(t *testing.T, scAny any, keepLog bool) *Outcome {
 					sd.recv = append(sd.recv, buf[:n]...)
 					if n > 0 {
 						lastProgress, spins = s.Now(), 0
+					}
+					if ne, ok := err.(interface{ Timeout() bool }); err != nil && ok && ne.Timeout() && sd.spurious == "" && !sd.localClose {
+						// which read deadlines can be in effect? the last one set, or one being set right now
+						earliest := sd.rdlDone
+						for _, p := range sd.rdlPending {
+							if p.Before(earliest) {
+								earliest = p
+							}
+						}
+						// (a Read that has to write — handshake, renegotiation, KeyUpdate reply — can also fail on a write
+						// deadline: only a Read on an established, undisturbed connection whose write deadlines all lie
+						// in the future is judged)
+						if s.Now().Before(earliest) && s.Now().Before(sd.wdlMin) && !sd.abrupt && sd.conn.ConnectionState().HandshakeComplete {
+							sd.spurious = fmt.Sprintf("Read returned %v at %v, %v before the earliest read deadline the application had set", err, s.Now().Sub(kit.SimEpoch), earliest.Sub(s.Now()))
+						}
 					}
 					if err != nil {
 						// A read deadline moved by another goroutine (SetDeadline / SetReadDeadline) interrupts a blocked Read
@@ -329,7 +367,7 @@ func execC34(t *testing.T, scAny any, keepLog bool) *Outcome {
 								break
 							}
 							o.count("probe.read_resumed_after_timeout", 1)
-							sd.conn.SetReadDeadline(lastProgress.Add(base))
+							setRDL(sd, lastProgress.Add(base), false)
 							continue
 						}
 						sd.readErr, sd.readErrAt = err, s.Steps
@@ -406,13 +444,16 @@ func execC34(t *testing.T, scAny any, keepLog bool) *Outcome {
 					case "handshake":
 						sd.conn.Handshake()
 					case "setdl":
-						sd.conn.SetDeadline(s.Now().Add(time.Duration(op.DelayMs+500) * time.Millisecond))
+						setRDL(sd, s.Now().Add(time.Duration(op.DelayMs+500)*time.Millisecond), true)
 					case "setrdl":
-						sd.conn.SetReadDeadline(s.Now().Add(time.Duration(op.DelayMs+500) * time.Millisecond))
+						setRDL(sd, s.Now().Add(time.Duration(op.DelayMs+500)*time.Millisecond), false)
 					case "setwdl":
 						d := time.Duration(op.DelayMs+500) * time.Millisecond
 						if op.DelayMs == 1 {
 							d = time.Microsecond // a deadline that has practically expired when the next Write starts
+						}
+						if t := s.Now().Add(d); sd.wdlMin.IsZero() || t.Before(sd.wdlMin) {
+							sd.wdlMin = t
 						}
 						sd.conn.SetWriteDeadline(s.Now().Add(d))
 					case "hello_request":
@@ -431,6 +472,15 @@ func execC34(t *testing.T, scAny any, keepLog bool) *Outcome {
 							sd.conn.WriteRecord(22, []byte{24, 0, 0, 1, 1})
 							nets[tk.Side].Kill(false)
 							o.count("fault.key_update_then_transport_closed", 1)
+						}
+					case "ccs_flood":
+						// TLS 1.3: more middlebox-compatibility ChangeCipherSpec records than a receiver tolerates in a row
+						// (they are ignored one by one; the receiver then gives up with an alert, while its writers are busy)
+						if sd.conn.ConnectionState().HandshakeComplete {
+							markAbrupt(sides[0])
+							markAbrupt(sides[1])
+							nets[tk.Side].Write(bytes.Repeat([]byte{20, 3, 3, 0, 1, 1}, 17+op.DelayMs%5))
+							o.count("fault.ccs_flood", 1)
 						}
 					case "key_update_raw":
 						// TLS 1.3: a KeyUpdate(update_requested) sent without moving on to the next sending key (a
@@ -474,6 +524,11 @@ func execC34(t *testing.T, scAny any, keepLog bool) *Outcome {
 		}
 		if o.Fail == nil && ackAfterTimeout != "" {
 			o.Fail = Failf("c34.ack_after_timeout", "a Write succeeded after an earlier Write on the connection had timed out", "%s", ackAfterTimeout)
+		}
+		for side := 0; side < 2 && o.Fail == nil; side++ {
+			if sp := sides[side].spurious; sp != "" {
+				o.Fail = Failf("c34.spurious_timeout", "Read timed out before the read deadline set by the application (another call changed the read deadline)", "side %d: %s", side, sp)
+			}
 		}
 		if o.Fail == nil && torn != "" {
 			o.Fail = Failf("c34.torn", "ConnectionState observed inconsistent handshake state", "%s", torn)
@@ -603,7 +658,7 @@ func init() {
 		Real:   []string{"tls.Conn Read/Write/Handshake/ConnectionState/SetDeadline/SetReadDeadline/SetWriteDeadline/CloseWrite/Close with their real locking (handshakeMutex, in/out halfConn mutexes, activeCall, handshakeStatus, Config.mutex)"},
 		Stub:   []string{"sync.Mutex/RWMutex and sync/atomic of package tls are replaced by the simulator-aware shim (same semantics, scheduling points added)", "transport", "clock", "entropy"},
 		Assume: []string{"one reader per direction (the order of bytes between concurrent Reads is not defined by the API)", "every blocking call has a deadline, as the property's precondition says", "interleavings are controlled at lock/atomic/transport granularity, not between plain memory accesses"},
-		FaultKinds: []string{"probe.lock_ops", "probe.contended_lock_ops", "probe.multi_enabled_steps", "probe.clean_eof_streams", "fault.hello_request_sent", "fault.key_update_then_transport_closed", "fault.key_update_without_own_key_change", "net.write_blocked_on_window", "net.read_deadline_expired", "net.write_deadline_expired", "net.short_read",
+		FaultKinds: []string{"probe.lock_ops", "probe.contended_lock_ops", "probe.multi_enabled_steps", "probe.clean_eof_streams", "fault.hello_request_sent", "fault.key_update_then_transport_closed", "fault.key_update_without_own_key_change", "fault.ccs_flood", "net.write_blocked_on_window", "net.read_deadline_expired", "net.write_deadline_expired", "net.short_read",
 			"probe.raceB_runs", "probe.raceB_cancelled_handshakes"},
 		NotInjected: "wire corruption is C25/C32; here the adversary is the schedule. No storage.",
 		Gen:         genC34, New: func() any { return &c34Scenario{} }, Exec: execC34, Shrink: shrinkC34,
